@@ -199,7 +199,7 @@ def run_cbmc(k, tier, kdir, seed, res):
             inconclusive.append('%s: %s (%s)' % (kind, d, p.get('property')))
             continue
         inputs = P.trace_inputs(p.get('trace', []))
-        cands.append((kind, ident, [(a, b, b) for a, b in inputs]))
+        cands.append((kind, ident, [(a, b, b) for a, b in inputs], None))
     res['obligations'] = obl_out
     res['inconclusive'] = inconclusive
     res['witness_reachable'] = witness
@@ -318,7 +318,7 @@ def main():
             engs, cands = run_symex(k, tier, kdir, seed, res)
             cand_list = []
             for e, eng, o in cands:
-                cand_list.append((o.kind, o.ident, model_inputs(eng, o.model_vals)))
+                cand_list.append((o.kind, o.ident, model_inputs(eng, o.model_vals), e))
         else:
             cfile, cand_list = run_cbmc(k, tier, kdir, seed, res)
         do_native = k.get('native', True)
@@ -328,13 +328,13 @@ def main():
             res['native_build_s'] = round(time.time() - t0, 2)
         # ---- replay every distinct candidate against the real code
         seen = set()
-        for kind, ident, inputs in cand_list:
-            if (kind, ident) in seen:
+        for kind, ident, inputs, c_entry in cand_list:
+            if (kind, ident, c_entry) in seen:
                 continue
-            seen.add((kind, ident))
+            seen.add((kind, ident, c_entry))
             rp = os.path.join(kdir, 'replay_%d.txt' % len(seen))
             write_replay(rp, inputs)
-            rec = {'kind': kind, 'id': ident, 'replay': rp, 'inputs': [x[2] for x in inputs][:40]}
+            rec = {'kind': kind, 'id': ident, 'entry': c_entry, 'replay': rp, 'inputs': [x[2] for x in inputs][:40]}
             if not do_native:
                 rec['confirmed'] = None
                 res['spurious'].append(rec)
@@ -345,14 +345,16 @@ def main():
                     exe = P.native_cpp(k, tier, kdir, sanitize=True)
                 except P.BuildError as ex:
                     rec['note'] = 'sanitizer build failed: %s' % str(ex)[:200]
-            rc, out, err = P.run_native(exe, replay=rp)
+            rc, out, err = P.run_native(exe, replay=rp, entry=c_entry)
             fails = P.failed_asserts(out)
+            if 'REPLAY-LEFTOVER' in out or 'REPLAY-EXHAUSTED' in out:
+                rec['note'] = 'replay misaligned: the harness draws nondet inputs on a data-dependent path; draw them unconditionally'
             rec['native_failed_asserts'] = fails[:5]
             rec['native_rc'] = rc
             if kind == 'assert':
                 ok = ident in fails
             else:
-                ok = rc != 0 or 'runtime error' in err or 'AddressSanitizer' in err
+                ok = 'runtime error' in err or 'AddressSanitizer' in err or rc < 0
                 rec['native_stderr'] = err[-600:]
             rec['confirmed'] = ok
             (res['violations'] if ok else res['spurious']).append(rec)
